@@ -365,9 +365,17 @@ def hostilize(rng, doc, prephase=None, allow_missing=True):
     for r in doc.records:
         # extra record before this one?
         if rng.random() < 0.25:
-            kind = rng.choice(["multi", "symbolic", "noalt", "dup", "dup", "multidup"])
+            kind = rng.choice(["multi", "symbolic", "noalt", "dup", "dup", "multidup", "indeldup"])
             if kind == "dup":
                 ref, alts = r["ref"][0], [rng.choice([b for b in BASES if b != r["ref"][0]])]
+                pos = r["pos"]
+            elif kind == "indeldup":
+                # a deletion or insertion record at the very position of a simulated variant (an SNV and an indel at one base, as after
+                # splitting a multi-allelic site), before or after it
+                if rng.random() < 0.5:
+                    ref, alts = r["ref"][0] + "".join(rng.choice(BASES) for _ in range(rng.randint(1, 3))), [r["ref"][0]]
+                else:
+                    ref, alts = r["ref"][0], [r["ref"][0] + "".join(rng.choice(BASES) for _ in range(rng.randint(1, 3)))]
                 pos = r["pos"]
             elif kind == "multidup":
                 # a multi-ALT record at the very position of a simulated variant (before or after it)
@@ -387,7 +395,7 @@ def hostilize(rng, doc, prephase=None, allow_missing=True):
                 calls.append({"GT": rng.choice(["/", "/", "|"]).join(g), "GQ": "30"})
             x = {"chrom": r["chrom"], "pos": pos, "id": ".", "ref": ref, "alts": alts, "qual": ".", "filter": ".", "info": ".",
                  "fmt": ["GT", "GQ"], "calls": calls, "kind": kind}
-            if kind in ("dup", "multidup") and rng.random() < 0.5:
+            if kind in ("dup", "multidup", "indeldup") and rng.random() < 0.5:
                 new.append(r)
                 r = x  # duplicate goes after
             else:
